@@ -21,6 +21,8 @@ pub enum MOp {
     SendId(String, Request),
     /// wait until every request sent so far has a final (OK/FAILURE) response
     Barrier,
+    /// like Barrier, but give up after this much virtual time
+    BarrierFor(u64),
     /// wait until `board[key] >= value`
     WaitBoard(String, i64),
     /// set `board[key] = value`
@@ -69,6 +71,7 @@ pub struct Master {
     pub ended: bool,
     pub closed: bool,
     sleeping_until: Option<u64>,
+    barrier_until: Option<u64>,
 }
 
 pub fn frame(req: &WorkerRequest) -> Vec<u8> {
@@ -94,6 +97,7 @@ impl Master {
             ended: false,
             closed: false,
             sleeping_until: None,
+            barrier_until: None,
         }
     }
     pub fn push(&mut self, op: MOp) {
@@ -205,6 +209,15 @@ impl Actor for Master {
                     self.script.push_front(MOp::Barrier);
                     return if progressed { Step::Progress } else { Step::Blocked };
                 }
+                progressed = true;
+            }
+            MOp::BarrierFor(d) => {
+                let until = *self.barrier_until.get_or_insert(w.now + d);
+                if !self.data.all_final() && !self.data.eof && w.now < until {
+                    self.script.push_front(MOp::BarrierFor(d));
+                    return if progressed { Step::Progress } else { Step::Idle(until) };
+                }
+                self.barrier_until = None;
                 progressed = true;
             }
             MOp::WaitBoard(key, v) => {
